@@ -509,9 +509,13 @@ impl<'a> Repair<'a> {
                 }
             }
         }
-        if !committed {
+        // donor transplants that do not satisfy the constraint on their own are only kept where
+        // nothing else can be tried (they multiply the branching of doomed decomposition chains)
+        if !committed && out.is_empty() {
             for mv in unsat_donor {
-                out.push((false, mv));
+                if mv.len() > 1 {
+                    out.push((false, mv));
+                }
             }
         }
         out
